@@ -27,6 +27,9 @@ pub enum Op {
     Encaps { mpk: u16, ap: PolicySpec, bad: u8 },
     /// encapsulate for a conjunction derived from an existing user key (authorized pairs frequent)
     EncapsFor { mpk: u16, usk: u16, variant: u8 },
+    /// encapsulate for the disjunction of all attributes of one dimension (as many targets as
+    /// the dimension has attributes)
+    EncapsWide { mpk: u16, dim: u16 },
     Check,
     RoundTrip { what: u8, sel: u16 },
     Recaps { enc: u16, mpk: u16 },
@@ -50,6 +53,7 @@ impl Op {
             Op::Refresh { .. } => "Refresh",
             Op::Encaps { .. } => "Encaps",
             Op::EncapsFor { .. } => "EncapsFor",
+            Op::EncapsWide { .. } => "EncapsWide",
             Op::Check => "Check",
             Op::RoundTrip { .. } => "RoundTrip",
             Op::Recaps { .. } => "Recaps",
@@ -723,10 +727,33 @@ impl World {
     }
 
 
+    fn structure_bytes(&self) -> Vec<u8> {
+        ser(&self.msk.access_structure).unwrap_or_default()
+    }
+
+    /// [C10] a structure edit that returned Err must leave the (serialized) structure unchanged
+    fn structure_untouched(&self, before: &[u8], op: &str) -> Step {
+        let now = self.structure_bytes();
+        if now != before {
+            let same_object = match (de::<AccessStructure>(before), de::<AccessStructure>(&now)) {
+                (Ok(a), Ok(b)) => a == b,
+                _ => false,
+            };
+            if !same_object {
+                return self.soft(&["C10"], &format!("structure-modified-by-failed-{op}"), format!("{op} returned Err but the access structure of the master key changed"));
+            }
+        }
+        Ok(())
+    }
+
     pub fn del_dim_named(&mut self, nm: &str) -> Step {
         let before = self.m.structure.clone();
+        let sb = self.structure_bytes();
         let e = self.m.structure.del_dim(nm);
         let r = self.msk.access_structure.del_dimension(nm);
+        if r.is_err() {
+            self.structure_untouched(&sb, "del_dimension")?;
+        }
         self.log(format!("del_dimension({nm}) -> {}", okerr(&r)));
         if e == Expect::Ok {
             self.events.insert("del-dim");
@@ -739,8 +766,12 @@ impl World {
     }
 
     pub fn add_dim_named(&mut self, nm: &str, hier: bool) -> Step {
+        let sb = self.structure_bytes();
         let e = self.m.structure.add_dim(nm, hier);
         let r = if hier { self.msk.access_structure.add_hierarchy(nm.to_string()) } else { self.msk.access_structure.add_anarchy(nm.to_string()) };
+        if r.is_err() {
+            self.structure_untouched(&sb, "add_dimension")?;
+        }
         self.log(format!("add_{}({nm}) -> {}", if hier { "hierarchy" } else { "anarchy" }, okerr(&r)));
         if matches!(e, Expect::Err(_)) {
             self.events.insert("err:duplicate-dimension");
@@ -752,8 +783,12 @@ impl World {
 
     pub fn add_attr_named(&mut self, d: &str, nm: &str, hybrid: bool, after_nm: Option<&str>) -> Step {
         let uid = self.next_uid;
+        let sb = self.structure_bytes();
         let e = self.m.structure.add_attr(d, nm, hybrid, after_nm, uid);
         let r = self.msk.access_structure.add_attribute(qa(d, nm), hint(hybrid), after_nm);
+        if r.is_err() {
+            self.structure_untouched(&sb, "add_attribute")?;
+        }
         self.log(format!("add_attribute({d}::{nm}, hybridized={hybrid}, after={after_nm:?}) -> {}", okerr(&r)));
         if let Expect::Err(c) = &e {
             self.events.insert(match *c {
@@ -815,8 +850,12 @@ impl World {
                 let d = self.dim_name(*dim, false);
                 let a = self.attr_name(&d, *attr, *bad);
                 let before = self.m.structure.clone();
+                let sb = self.structure_bytes();
                 let e = self.m.structure.del_attr(&d, &a);
                 let r = self.msk.access_structure.del_attribute(&qa(&d, &a));
+                if r.is_err() {
+                    self.structure_untouched(&sb, "del_attribute")?;
+                }
                 self.log(format!("del_attribute({d}::{a}) -> {}", okerr(&r)));
                 if e == Expect::Ok {
                     self.events.insert("del-attr");
@@ -831,8 +870,12 @@ impl World {
                 let d = self.dim_name(*dim, false);
                 let a = self.attr_name(&d, *attr, *bad);
                 let new_nm = format!("{}'", ATTR_NAMES[*new as usize % ATTR_NAMES.len()]);
+                let sb = self.structure_bytes();
                 let e = self.m.structure.rename(&d, &a, &new_nm);
                 let r = self.msk.access_structure.rename_attribute(&qa(&d, &a), new_nm.clone());
+                if r.is_err() {
+                    self.structure_untouched(&sb, "rename_attribute")?;
+                }
                 self.log(format!("rename_attribute({d}::{a} -> {new_nm}) -> {}", okerr(&r)));
                 if e == Expect::Ok {
                     self.events.insert("renamed");
@@ -847,8 +890,12 @@ impl World {
             Op::Disable { dim, attr, bad } => {
                 let d = self.dim_name(*dim, false);
                 let a = self.attr_name(&d, *attr, *bad);
+                let sb = self.structure_bytes();
                 let e = self.m.structure.disable(&d, &a);
                 let r = self.msk.access_structure.disable_attribute(&qa(&d, &a));
+                if r.is_err() {
+                    self.structure_untouched(&sb, "disable_attribute")?;
+                }
                 self.log(format!("disable_attribute({d}::{a}) -> {}", okerr(&r)));
                 if e == Expect::Ok {
                     self.events.insert("disabled");
@@ -861,7 +908,10 @@ impl World {
                 let (e, created) = m2.update(&mut self.next_rev);
                 let r = self.cc.update_msk(&mut self.msk);
                 self.log(format!("update_msk() -> {}", okerr(&r)));
-                self.mismatch("update_msk", &e, r.is_ok(), &errtxt(&r), &["C03", "C05", "C06"], &[])?;
+                if r.is_err() {
+                    self.msk_untouched(&before, "update_msk", "any-error")?;
+                }
+                self.mismatch("update_msk", &e, r.is_ok(), &errtxt(&r), &["C03", "C05", "C06"], &["C06"])?;
                 match r {
                     Ok(mpk) => {
                         let dropped = self.m.rights.len() + created.len() - m2.rights.len();
@@ -900,6 +950,9 @@ impl World {
                 let r = self.cc.rekey(&mut self.msk, &pol);
                 self.log(format!("rekey({}) -> {}", dnf_str(&dnf), okerr(&r)));
                 let _ = note;
+                if r.is_err() {
+                    self.msk_untouched(&before, "rekey", "any-error")?;
+                }
                 self.mismatch("rekey", &e, r.is_ok(), &errtxt(&r), &["C04"], &[])?;
                 match r {
                     Ok(mpk) => {
@@ -945,6 +998,9 @@ impl World {
                 let (e, removed) = m2.prune(&dnf);
                 let r = self.cc.prune_master_secret_key(&mut self.msk, &pol);
                 self.log(format!("prune({}) -> {}", dnf_str(&dnf), okerr(&r)));
+                if r.is_err() {
+                    self.msk_untouched(&before, "prune", "any-error")?;
+                }
                 self.mismatch("prune", &e, r.is_ok(), &errtxt(&r), &["C05"], &[])?;
                 match r {
                     Ok(mpk) => {
@@ -992,6 +1048,9 @@ impl World {
                     Ok(_) => Expect::Ok,
                     Err(c) => Expect::Err(c),
                 };
+                if r.is_err() {
+                    self.msk_untouched(&before, "keygen", "any-error")?;
+                }
                 self.mismatch("keygen", &e, r.is_ok(), &errtxt(&r), &["C03", "C01"], &[])?;
                 match (r, mr) {
                     (Ok(key), Ok(mu)) => {
@@ -1048,6 +1107,11 @@ impl World {
                 }
                 if behind {
                     self.events.insert(if *keep { "refresh-behind:keep" } else { "refresh-behind:nokeep" });
+                }
+                if r.is_err() {
+                    self.msk_untouched(&before_msk, "refresh_usk", "any-error")?;
+                    let k = self.usks[i].key.clone();
+                    self.usk_untouched(&before_usk, &k, "refresh_usk", "any-error")?;
                 }
                 self.mismatch("refresh_usk", &e, r.is_ok(), &errtxt(&r), &["C04", "C05", "C06"], &["C08", "C17"])?;
                 match r {
@@ -1123,6 +1187,20 @@ impl World {
                 let dnf = vec![conj];
                 let rp = RPolicy::from_dnf(&dnf, *variant as u64 * 0x9e37 + 1);
                 let pol = self.real_policy(&rp)?;
+                self.do_encaps(mi, &dnf, &pol)
+            }
+            Op::EncapsWide { mpk, dim } => {
+                let mi = self.mpk_index(*mpk);
+                let st = self.mpks[mi].1.structure.clone();
+                let dims: Vec<&MDim> = st.dims.iter().filter(|d| !d.attrs.is_empty()).collect();
+                if dims.is_empty() {
+                    return Ok(());
+                }
+                let d = dims[pick(*dim, dims.len())];
+                let dnf: Vec<Conj> = d.attrs.iter().map(|a| vec![(d.name.clone(), a.name.clone())]).collect();
+                let rp = RPolicy { broadcast: false, groups: vec![vec![(d.name.clone(), d.attrs.iter().map(|a| a.name.clone()).collect())]], shape: *dim as u64 };
+                let pol = self.real_policy(&rp)?;
+                self.events.insert("wide-encapsulation");
                 self.do_encaps(mi, &dnf, &pol)
             }
             Op::Check => {
